@@ -358,6 +358,12 @@ class TransparencyOracle:
     def _tap(self, kind, t, src, dst, data):
         if kind == "deliver" and dst in self.world.assoc_owner:
             self._before = world_snapshot(self.world)
+            m = self.model.assocs.get(dst)
+            if m is not None and m.alive and self.world.net.endpoints.get(dst) is None and not self.stopped:
+                # nobody closed this viewer's connection, yet its relay socket is gone: everything it sends or is
+                # sent from now on falls on the floor without the proxy ever seeing it
+                self._violate(f"{self.prop}/association/closed-under-a-live-viewer", viewer=list(m.viewer.addr),
+                              relay=list(dst))
 
     def on_emission(self, e: Emission):
         if e.cause is not None or self.stopped:
@@ -578,8 +584,9 @@ class Driver:
             "ucc": self.op_ucc, "vsend": self.op_vsend, "ssend": self.op_ssend,
             "garbage": self.op_garbage, "disconnect": self.op_disconnect, "register_region": self.op_register_region,
             "vack": self.op_vack, "sack": self.op_sack, "objsel": self.op_objsel, "reconnect": self.op_reconnect,
-            "badsend": self.op_badsend, "stall": self.op_stall,
+            "badsend": self.op_badsend, "stall": self.op_stall, "inject": self.op_inject,
         }
+        self._ucc_pid: Dict[tuple, int] = {}
         self.stalls: List[Tuple[float, float]] = []
         self.oracle = None      # set by worlds that judge wire IDs (needed to account for used-up proxy IDs)
 
@@ -678,8 +685,41 @@ class Driver:
         far = self.far(st)
         sid = spec.session_id if not st.get("bad_session") else b"\xEE" * 16
         body = G.use_circuit_code_body(spec.circuit_code, sid, spec.agent_id)
-        dg = L.build_datagram(L.RELIABLE if st.get("reliable", True) else 0, v.alloc_pid(far), 0, body)
+        first = self._ucc_pid.get((v.addr, far))
+        if st.get("again") and first is not None:
+            # the viewer retransmits its UseCircuitCode (the ack got lost): same packet ID, RESENT set
+            self.res.fault("use_circuit_code_retransmitted")
+            dg = L.build_datagram(L.RELIABLE | L.RESENT, first, 0, body)
+        else:
+            pid = v.alloc_pid(far)
+            self._ucc_pid.setdefault((v.addr, far), pid)
+            dg = L.build_datagram(L.RELIABLE if st.get("reliable", True) else 0, pid, 0, body)
         v.send_payload(far, dg, Fate.from_json(st.get("fate")))
+
+    def op_inject(self, st):
+        """The proxy sends a packet of its own on a circuit (an addon, the operator)."""
+        from hippolyzer.lib.base.datatypes import UUID
+        from hippolyzer.lib.base.message.message import Block, Message
+        from hippolyzer.lib.base.message.msgtypes import PacketFlags
+        from hippolyzer.lib.base.network.transport import Direction
+        v = self.viewer(st)
+        if v.proxy_udp is None or v.session_idx is None or v.proxy_udp not in self.world.net.transports:
+            return
+        spec = self.spec_of(v)
+        region = self.world.region_obj(v.session_idx, self.far(st))
+        if region is None or region.circuit is None or not region.circuit.is_alive:
+            return
+        if st.get("dir", "out") == "out":
+            msg = Message("ChatFromViewer", Block("AgentData", AgentID=spec.session.agent_id, SessionID=spec.session.id),
+                          Block("ChatData", Message="injected", Type=1, Channel=7), direction=Direction.OUT)
+        else:
+            msg = Message("ChatFromSimulator", Block("ChatData", FromName="proxy", SourceID=UUID(int=1), OwnerID=UUID(int=2),
+                                                     SourceType=1, ChatType=1, Audible=1, Position=(0.0, 0.0, 0.0),
+                                                     Message="injected"), direction=Direction.IN)
+        if st.get("reliable"):
+            msg.send_flags |= PacketFlags.RELIABLE
+        self.res.fault("inject_" + st.get("dir", "out"))
+        region.circuit.send(msg)
 
     def op_vsend(self, st):
         v = self.viewer(st)
